@@ -7,7 +7,7 @@ loop stack exactly as it found it. (A failed compilation is discarded as a whole
 -/
 import ZygoVerif.Model.Gen
 namespace ZygoVerif.Contain
-open ZygoVerif.Core
+open ZygoVerif.Core ZygoVerif.VM
 
 theorem grun_pure {α} (a : α) (gs : GS) : (pure a : G α).run gs = .ok (a, gs) := rfl
 theorem grun_bind {α β} (m : G α) (f : α → G β) (gs : GS) :
